@@ -24,6 +24,7 @@ pub fn prop() -> Prop {
             Sub::tape("triangles_random", 24, 100_000, 5_000_000, triangles_random),
             Sub::tape("sectors", 16, 60_000, 3_000_000, sectors).with_fp(),
             Sub::tape("large_shapes", 48, 1_600, 80_000, large_shapes),
+            Sub::tape("huge_sampled_rows", 160, 400, 20_000, huge_shapes).with_fp(),
         ],
     }
 }
@@ -337,5 +338,130 @@ fn large_shapes(d: &mut Dec, cx: &mut Cx) -> Res {
         s.points_protocol(d)?;
     }
     cx.nontrivial(r.n_points >= 3 && !r.full_rect);
+    Ok(())
+}
+
+
+// ---------------------------------------------------------------------------------------------
+// Shapes of 1025..=4600 px: the whole points() stream, contains() on sampled rows
+// ---------------------------------------------------------------------------------------------
+
+/// `points()` is consumed completely (order, bounding box, number of points per sampled row); `contains()`
+/// is evaluated for every x of the sampled rows (box width + margin) and on rows just outside the box.
+fn points_vs_contains_rows(kind: &str, pts: impl Iterator<Item = Point>, contains: impl Fn(Point) -> bool, bbox: Rectangle, rows: &std::collections::BTreeSet<i32>) -> Result<usize, Fail> {
+    let budget = (bbox.size.width as u64 + 1) * (bbox.size.height as u64 + 1) + 16;
+    let mut per_row: std::collections::BTreeMap<i32, Vec<i32>> = Default::default();
+    let mut last: Option<Point> = None;
+    let mut n = 0u64;
+    for p in pts {
+        n += 1;
+        if n > budget {
+            return fail(format!("{}:too_many_points", kind), format!("more than {} points for bounding box {:?}", budget, bbox));
+        }
+        if let Some(q) = last {
+            if (p.y, p.x) <= (q.y, q.x) {
+                return fail(format!("{}:order", kind), format!("points() yields {:?} after {:?} (not strictly row-major / duplicate)", p, q));
+            }
+        }
+        last = Some(p);
+        if !bbox.contains(p) {
+            return fail(format!("{}:outside_bbox", kind), format!("points() yields {:?} outside bounding box {:?}", p, bbox));
+        }
+        if rows.contains(&p.y) {
+            per_row.entry(p.y).or_default().push(p.x);
+        }
+    }
+    let (x0, x1) = (bbox.top_left.x - 3, bbox.top_left.x + bbox.size.width as i32 + 3);
+    let empty = vec![];
+    for &y in rows {
+        let xs = per_row.get(&y).unwrap_or(&empty);
+        let mut idx = 0;
+        for x in x0..x1 {
+            let q = Point::new(x, y);
+            let c = contains(q);
+            let member = idx < xs.len() && xs[idx] == x;
+            if member {
+                idx += 1;
+            }
+            if c && !member {
+                let sig = if bbox.contains(q) { "points_missing" } else { "contains_outside_bbox" };
+                return fail(format!("{}:{}", kind, sig), format!("contains({:?}) is true but points() does not yield it (bbox {:?}, {} points in all)", q, bbox, n));
+            }
+            if !c && member {
+                return fail(format!("{}:points_extra", kind), format!("points() yields {:?} but contains() rejects it (bbox {:?})", q, bbox));
+            }
+        }
+    }
+    Ok(n as usize)
+}
+
+fn huge_shapes(d: &mut Dec, cx: &mut Cx) -> Res {
+    let kind = d.pick(&[1u32, 2, 3, 4, 7, 7]);
+    let big = |d: &mut Dec, hi: u32| match d.u(0, 2) {
+        0 => (d.pick(&[1024u32, 1448, 2048, 2896, 4096, 4600]) as i32 + d.i(-3, 3)).clamp(1025, hi as i32) as u32,
+        _ => d.u(1025, hi),
+    };
+    let place = |d: &mut Dec, w: u32, h: u32| if d.bool() { Point::new(-(w as i32) / 2 + d.i(-3, 3), -(h as i32) / 2 + d.i(-3, 3)) } else { Point::new(d.i(-20_000, 20_000), d.i(-20_000, 20_000)) };
+    let s = match kind {
+        1 => {
+            let w = big(d, 4600);
+            Shape::Circle(Circle::new(place(d, w, w), w))
+        }
+        2 => {
+            let (w, h) = if d.bool() { (big(d, 4600), d.u(1, 300)) } else { (big(d, 3000), big(d, 3000)) };
+            let (w, h) = if d.bool() { (w, h) } else { (h, w) };
+            Shape::Ellipse(Ellipse::new(place(d, w, h), Size::new(w, h)))
+        }
+        3 => {
+            let (w, h) = if d.bool() { (big(d, 4600), d.u(1, 300)) } else { (big(d, 3000), big(d, 3000)) };
+            let (w, h) = if d.bool() { (w, h) } else { (h, w) };
+            let rad = |d: &mut Dec| Size::new(d.u(0, w), d.u(0, h));
+            let radii = if d.bool() { CornerRadii::new(rad(d)) } else { CornerRadii { top_left: rad(d), top_right: rad(d), bottom_right: rad(d), bottom_left: rad(d) } };
+            Shape::RRect(RoundedRectangle::new(Rectangle::new(place(d, w, h), Size::new(w, h)), radii))
+        }
+        4 => {
+            // vertices within +-3000 of the origin (`area_doubled` multiplies absolute coordinates)
+            let span = big(d, 3000) as i32;
+            let a = Point::new(d.i(-span / 2, span / 2), d.i(-span / 2, span / 2));
+            let b = a + Point::new(d.i(-span, span), d.i(-span, span));
+            let c = a + Point::new(d.i(-span, span), d.i(-span, span));
+            let (mut b, mut c) = gen::structure_triangle(d, a, b, c);
+            if a == b {
+                b.x += 1;
+            }
+            let mut k = 0;
+            while orient(a, b, c) == 0 {
+                if k % 2 == 0 { c.y += 1 } else { c.x += 1 }
+                k += 1;
+            }
+            Shape::Triangle(Triangle::new(a, b, c))
+        }
+        _ => {
+            let w = big(d, 3000);
+            Shape::Sector(Sector::new(place(d, w, w), w, gen::angle_deg(d).deg(), gen::angle_deg(d).deg()))
+        }
+    };
+    cx.describe(|| format!("{:?}", s));
+    cx.class(s.kind());
+    let bb = s.bounding_box();
+    let (y0, y1) = (bb.top_left.y, bb.top_left.y + bb.size.height as i32 - 1);
+    let mut rows: std::collections::BTreeSet<i32> = Default::default();
+    for base in [y0, y1, (y0 + y1) / 2] {
+        for k in -3..=3 {
+            rows.insert(base + k);
+        }
+    }
+    for _ in 0..28 {
+        rows.insert(d.i(y0 - 2, y1 + 2));
+    }
+    let n = match &s {
+        Shape::Circle(c) => points_vs_contains_rows("circle", c.points(), |p| c.contains(p), bb, &rows)?,
+        Shape::Ellipse(e) => points_vs_contains_rows("ellipse", e.points(), |p| e.contains(p), bb, &rows)?,
+        Shape::RRect(r) => points_vs_contains_rows("rounded_rectangle", r.points(), |p| r.contains(p), bb, &rows)?,
+        Shape::Triangle(t) => points_vs_contains_rows("triangle", t.points(), |p| t.contains(p), bb, &rows)?,
+        Shape::Sector(x) => points_vs_contains_rows("sector", x.points(), |p| x.contains(p), bb, &rows)?,
+        _ => unreachable!(),
+    };
+    cx.nontrivial(n >= 3 && (n as u64) < bb.size.width as u64 * bb.size.height as u64);
     Ok(())
 }
